@@ -12,7 +12,7 @@ RULE = ("generated register sets (raw CSRs, storages with/without atomic write, 
         "re/we strobe and every field in every cycle; non-trivial = a register wider than the bus word was written "
         "with all its words and read back, with an access to another register in between; distinct = canonical JSON")
 ASSUMPTIONS = ["Migen's simulator (site-packages) defines FHDL semantics",
-               "a device write and a bus write to the same register never happen in the same cycle (priority unspecified)",
+               "a device write coinciding with a bus write: the addressed word takes the bus value (the property: a bus write changes exactly the addressed bits), all other words the device value",
                "pulse fields are 1 bit wide with reset 0 (as the docstring requires)",
                "atomic_write with little ordering is a known finding (commit happens on the first address) - excluded by construction, witness replayed"]
 
@@ -106,6 +106,11 @@ def st_case(tier):
                 s = {"op": "seq", "reg": draw(st.integers(0, len(regs) - 1)), "val": draw(st.integers(0, (1 << 110) - 1)), "rd": draw(st.booleans())}
             elif k == 8:
                 s = {"op": "dev", "reg": draw(st.integers(0, len(regs) - 1)), "val": draw(st.integers(0, (1 << 110) - 1))}
+                if draw(st.booleans()):
+                    # a bus write to some word in the very same cycle (the property: a bus write changes exactly the
+                    # addressed bits - so the addressed word takes the bus value, the rest the device value)
+                    s["bus_idx"] = draw(st.integers(0, nwords))
+                    s["bus_dat"] = draw(st.integers(0, _m(busword)))
             else:
                 s = {"op": "idle", "n": draw(st.integers(1, 3))}
             steps.append(s)
@@ -264,7 +269,10 @@ def _expand(case, model_words, regs_n):
             for _ in range(s["n"]):
                 cyc.append({})
         elif s["op"] == "dev":
-            cyc.append({"dev": (s["reg"], s["val"])})
+            c_ = {"dev": (s["reg"], s["val"])}
+            if "bus_idx" in s:
+                c_["bus"] = ((case["address"] << ps) | (s["bus_idx"] & ((1 << ps) - 1)), 1, 0, s["bus_dat"])
+            cyc.append(c_)
         else:
             # full accessor sequence for register s["reg"]: all its words in address order
             k = s["reg"]
@@ -381,7 +389,7 @@ def run_case(case):
             elif kind == "storage":
                 if v[0] != reg["storage"]:
                     return bad("storage", "cycle %d: r%d.storage=%#x, model %#x (bus=%r) | %s" % (c, k, v[0], reg["storage"], b, _descr(case)),
-                               key="csr:storage" + (":atomic" if reg["atomic"] else ""), cls=cls)
+                               key="csr:storage" + (":atomic-little" if (reg["atomic"] and case["ordering"] == "little") else ""), cls=cls)
                 if v[1] != reg["re"]:
                     return bad("re", "cycle %d: r%d.re=%d, model %d | %s" % (c, k, v[1], reg["re"], _descr(case)), key="csr:re", cls=cls)
                 r = case["regs"][k]
